@@ -27,6 +27,9 @@ claimed = {
  "C20": dict(ref="DESIGN.md §4 C20",
    text="Bounded symbolic execution of the real replacer and log middleware: Replace is total on every format <=4 bytes (5 thorough) over the placeholder syntax; request text (header, custom placeholder, query value) of <=3 symbolic bytes over an alphabet that can spell placeholders is inserted verbatim exactly once between escaped-brace literals; unknown placeholders yield the empty-value marker; Logger.ServeHTTP with path scopes/exceptions, 1..2 log entries and every inner-handler behaviour (writes with/without status, chunks, error returns) emits exactly one line per entry whose {status} {size} equal what the fake client received, none out of scope.",
    note="Concurrent requests sharing a log, log rolling, and the {request}/{request_body}/TLS/time placeholders are outside. (*log.Logger) output is modelled by an intrinsic that formats the line and writes it to the harness sink."),
+ "C15": dict(ref="DESIGN.md §4 C15",
+   text="Bounded symbolic execution of the real qualification and redirect code: markQualifiedForAutoHTTPS + enableAutoHTTPS (IsLoopback, IsInternal, net.ParseIP/ParseCIDR and certmagic.SubjectQualifiesForPublicCert from their SSA) for every combination of scheme x port x 21 host classes (symbolic label) x manual/self-signed/email flags against the eight conditions of the statement written directly; makePlaintextRedirects over <=3 sites x 2 hosts x ports {80,443,8443} with symbolic TLS/NoRedirect flags; the synthesised redirect middleware on every Host (names, IPv4, bracketed IPv6, 1..2 symbolic bytes, with/without port) and request URI: 301, Location = https://host[:port]/path?query, Connection: close.",
+   note="Certificate obtain/renew calls, on-demand TLS, the bind directive's ListenHost and the TLS-disabling loop of MakeServers are outside this check."),
  "C17": dict(ref="DESIGN.md §4 C17",
    text="Bounded symbolic execution of the real limits / listener code over go/ssa: one maxBytesReader.Read step from an arbitrary reader state (remaining limit any int64>=0, buffer 0..4 bytes, underlying reader returning any count/error); whole bodies 0..5 bytes against limits 0..3 and 2^63-1 under every chunking and buffer size; scope selection of Limit.ServeHTTP over <=3 nested path scopes (longest matching scope wins); parseSize exactness for 1..3 and 10..11 digit numbers x every unit (64-bit overflow); strictest-of listener timeouts and header limit over <=2 (3 thorough) / <=4 sites with fully symbolic 64-bit values.",
    note="Bounds as stated. The proxy's mapping of the too-large error to 413 is not covered yet. Trusted: go/ssa construction, the engine's instruction semantics (validated per run by native replay of sampled path witnesses), z3 / cvc5."),
@@ -34,7 +37,7 @@ claimed = {
 not_applicable = {
  "C07": "Not decidable by symbolic execution of casket's code: the observable is the fate of real connections on kernel sockets while descriptors are duplicated and net/http drains; a verdict would be about a hand-written model of the kernel and net/http, not about this code (DESIGN.md §4 C07).",
 }
-pending = ["C02","C04","C08","C09","C11","C12","C14","C15","C16","C18"]
+pending = ["C02","C04","C08","C09","C11","C12","C14","C16","C18"]
 checks = []
 for pid, c in sorted(claimed.items()):
     checks.append({
